@@ -6,6 +6,8 @@ import (
 	"sync"
 
 	ipfslog "berty.tech/go-ipfs-log"
+	"berty.tech/go-ipfs-log/accesscontroller"
+	idp "berty.tech/go-ipfs-log/identityprovider"
 	"berty.tech/go-ipfs-log/iface"
 	"berty.tech/go-ipfs-log/internal/vx"
 )
@@ -280,6 +282,15 @@ var scenarioNames = []string{"Join||Append(source)", "Join||Join(back)", "Join||
 
 // H_C14: a merge from a log that is concurrently appended to / merged into / merging back terminates and
 // yields the union with a state the source really had; every interleaving at lock operations is explored.
+// gateAC is a replay gate inside the destination's critical section (its access controller is consulted
+// after the snapshots of the source were taken, while the destination's lock is held).
+type gateAC struct{ inner accesscontroller.Interface }
+
+func (g *gateAC) CanAppend(e accesscontroller.LogEntry, ip idp.Interface, c accesscontroller.CanAppendAdditionalContext) error {
+	vx.GateSeq("A:CanAppend:" + string(e.GetPayload()))
+	return g.inner.CanAppend(e, ip, c)
+}
+
 func H_C14() {
 	vx.ExploreOff()
 	cfg := histParams()
@@ -290,6 +301,9 @@ func H_C14() {
 		A = freshObserver(h, 0) // a fresh, empty destination being filled from a live peer
 		vx.Sig("destination=empty")
 	}
+	if vx.Param("WRAP", 0) == 1 {
+		A.AccessController = &gateAC{inner: A.AccessController}
+	}
 	nsc := 2
 	if cfg.R >= 3 {
 		nsc = 3
@@ -297,6 +311,9 @@ func H_C14() {
 	sc := vx.Choice("scenario", nsc+1)
 	if sc == nsc {
 		sc = 3
+	}
+	if only := vx.Param("SCEN", -1); only >= 0 {
+		vx.Assume(sc == only)
 	}
 	vx.Sig("scenario=" + scenarioNames[sc])
 	aBefore, bBefore := hashSet(entriesOf(A)), hashSet(entriesOf(B))
